@@ -151,3 +151,13 @@ def two_frames_with_the_same_apdu_do_not_share_their_octets(second, s1, s2, src,
     assert back1.tpci == TDataConnected(s1)
     assert back2.tpci == tp2
     assert back2.payload == same_again and back1.payload == payload
+
+
+# ------------------------------------------------------------------ the APDU encoder contract the frame lemmas rely on
+# (APCI_STUBS / AnyAPCI: a payload encodes to octets with the TPCI bits clear that decode back to it) - proved
+# for every service in C06; an obligation here too
+
+from contracts import c06_apci_encode as _c06  # noqa: E402
+from pyvc.api import rely_on  # noqa: E402
+
+rely_on("C13", _c06.encode_refuses_or_roundtrips)
